@@ -678,7 +678,8 @@ impl<Backing : AsRef<[u32]> + AsMut<[u32]>> DrawTarget<Backing> {
 
     /// Draws `src` through an untransformed `mask` positioned at `x`, `y` in device space
     pub fn mask(&mut self, src: &Source, x: i32, y: i32, mask: &Mask) {
-        let mask_rect = intrect(x, y, x + mask.width, y + mask.height);
+        // a mask positioned near i32::MAX ends at the edge of the coordinate space
+        let mask_rect = intrect(x, y, x.saturating_add(mask.width), y.saturating_add(mask.height));
         self.composite(src, Some(&mask.data), mask_rect, mask_rect, BlendMode::SrcOver, 1.);
     }
 
